@@ -12,9 +12,11 @@ BAR = " | "
 
 class C08(Check):
     prop = "C08"
-    required_theorems = ["addSeg_union", "addSeg_comm", "removeSeg_diff", "removeSeg_sound", "updateRegion_spec",
+    required_theorems = ["addSeg_union", "addSeg_comm", "removeSeg_diff", "removeSeg_sound", "updateRegion_spec", "nested_forest_spec",
                          "outside_window_inside", "updateRegion_window", "nth_weekday_correct", "nth_weekday_agrees_with_spec",
-                         "weekday_next_correct", "isInTimeRange_calendar_days_partial", "stride_dst_counterexample"]
+                         "weekday_next_correct", "isInTimeRange_calendar_days", "tz_hypotheses_satisfiable", "day_loop_covers",
+                         "scriptFunc_spec", "dayMatches_single", "dayMatches_weekday", "dayMatches_date", "dayMatches_nthWeekday",
+                         "dayMatches_range"]
     technique = ("Lean 4 proof (algebraic laws by induction over the segment list, lifted through the folds of Merge/UpdateRegion) over a "
                  "hand-written literal model; correspondence by exhaustive + random differential execution of real TimePeriod objects "
                  "(UpdateRegion, IsInside, includes/excludes by name) and of LegacyTimePeriod::ScriptFunc under five time zones")
@@ -22,18 +24,20 @@ class C08(Check):
                   "interval for every list of non-empty segments, shared boundaries included (full statement since the repair of F-C08a, commit 9b846ed); for "
                   "every period state, update inputs, region and clear flag the model's observation of UpdateRegion satisfies the executable specification "
                   "(window covers the region, outside the window inside, inside the window (own+includes)-excludes resp. (own-excludes)+includes) with no "
-                  "hypothesis beyond non-empty segments. "
-                  "Calendar layer: proved are the FindNthWeekday loop (terminates for n != 0, returns the n-th / n-th last such weekday, agrees with the "
-                  "specification's closed form), the next-weekday form, and IsInTimeRange = calendar-day range with calendar-day stride provided no UTC-offset "
-                  "change lies inside a stride > 1 range (kernel-checked counterexample F-C08b); the full scriptFunc_spec is not proved - model, declarative "
-                  "predicate and implementation are tied by evaluation on every run")
+                  "hypothesis beyond non-empty segments; nested_forest_spec lifts this by mutual induction to include/exclude forests of any depth. "
+                  "Calendar layer (token-level core; the string reader is tied by correspondence): for every entry list, window and time-zone parameter with "
+                  "23-46 h days, scriptFunc_spec - an instant lies in a returned segment iff a local day of the window matches an entry's day definition and "
+                  "the instant lies in one of its ranges on that day; day_loop_covers - the loop visits exactly the local days of the window, once, in order; "
+                  "matching is characterised declaratively for weekday, calendar date, n-th weekday and day ranges with calendar-day stride "
+                  "(isInTimeRange_calendar_days, full since the repair of F-C08b, commit 3f58d09)")
     level_note = ("Trusted: Lean kernel (+ propext, Classical.choice, Quot.sound), sampled correspondence (exhaustive over the endpoint alphabet 0..5/0..6, random "
-                  "nested forests, five time zones), harness/driver, libc mktime/localtime_r + tzdata (oracle input). Calendar layer: sub-lemmas proved, the end-to-end "
-                  "statement is checked by evaluation only.")
+                  "nested forests, five time zones), harness/driver, libc mktime/localtime_r + tzdata (oracle input). The calendar theorems assume TzOk/TzDrift of the "
+                  "time-zone parameter; the driver checks them on the probed offsets of every run.")
     trusted_base = [
         "modelled, not verified: libc mktime/localtime_r and the tz database enter the calendar model as the probed list of UTC-offset changes (oracle input per process)",
         "calendar layer (LegacyTimePeriod::ScriptFunc, ParseTimeSpec/ParseTimeRange/FindNthWeekday/IsInTimeRange/ProcessTimeRanges): literal model + declarative predicate, "
-        "tied by differential execution and spec evaluation; theorems cover FindNthWeekday, the weekday form and IsInTimeRange only",
+        "theorems are about the token-level core; the string reader (readSpecTok/readDayDef/readTimeRanges) and the month-day forms' closed meaning are tied by "
+        "differential execution and by the independent declarative predicate calSpec evaluated on the implementation's output",
         "not modelled: PurgeSegments and the 300 s update timer (non-clearing UpdateRegion itself is modelled and proved), Convert::ToLong corner cases beyond sign+digits, "
         "range boundaries inside a skipped or repeated local hour (excluded by the property)",
     ]
@@ -64,7 +68,7 @@ class C08(Check):
     def _key(l):
         """Class of a SPECFAIL line: everything but positions and the witness instant."""
         kv = core.parse_kv(l)
-        return tuple((k, kv.get(k, "")) for k in ("clause", "impl", "expected", "corr_ok", "stride_dst"))
+        return tuple((k, kv.get(k, "")) for k in ("clause", "impl", "expected", "corr_ok"))
 
     def _fails_same(self, harness, driver, lines, prefix, key=None):
         out = self._replay_lines(harness, driver, lines)
@@ -179,22 +183,8 @@ class C08(Check):
 
     # -------------------------------------------------------------------------------------------
     def matches_known(self, entry, finding):
-        """Narrow classifiers over the minimised witness."""
-        if finding.kind != "spec":
-            return False
-        drv = finding.detail.get("driver") or []
-        kvs = [core.parse_kv(l) for l in drv if l.startswith("SPECFAIL")]
-        if not kvs or any(l.startswith("MISMATCH") for l in drv):
-            return False
-        ops = [runner.strip_obs(l).split() for l in finding.case_lines]
-        # F-C08a (c08_exclusion_shares_boundary) is fixed (commit 9b846ed): no classifier any more, a failure at a shared
-        # boundary is a plain violation.
-        if entry.get("classifier") == "c08_stride_across_utc_offset_change":
-            # calendar clause, model agrees, and a stride > 1 is counted across a change of the UTC offset
-            ok = all(kv.get("clause") == "cal_inside_iff_matching_day_and_range" and kv.get("stride_dst") == "1" and kv.get("corr_ok") == "1" for kv in kvs)
-            has_stride = any(w[0] in ("P", "K") and "_/_" in w[-1] for w in ops)
-            not_utc = any(w[0] == "Z" and w[1] not in ("UTC", "Asia/Kolkata") for w in ops)
-            return ok and has_stride and not_utc
+        """F-C08a (commit 9b846ed) and F-C08b (commit 3f58d09) are fixed; there is no known finding and hence no
+        classifier: every spec failure of C08 is a violation."""
         return False
 
     def replay(self, path, harness, driver):
